@@ -67,7 +67,12 @@ def _lead(reg):
 
 
 def _value(ev):
-    return ev["hi16"] * 65536 + ev["lo16"] if ev["e"] == "oor" else ev.get("h", ev.get("lo"))
+    if ev["e"] in ("oor", "diff"):
+        return ev["hi16"] * 65536 + ev["lo16"]
+    if ev["e"] == "again":
+        f = ev.get("first_differing") or [0, 0]
+        return f[0] * 65536 + f[1]
+    return ev.get("h", ev.get("lo"))
 
 
 def _report(run, res, lines):
@@ -82,14 +87,21 @@ def _report(run, res, lines):
             values.append(_value(prev))
         if "reg" in ev:
             case["registration"] = _text(ev["reg"])
+        if ev["e"] == "diff":
+            values.append(ev["before_hi16"] * 65536 + ev["before_lo16"])   # the call made just before
+            values.reverse()
         case["values"] = values
         case["explain"] = {
             "total": "the lookup panicked (the property requires a return for every 32-bit value)",
             "injective": "two different addresses received the same registration",
+            "function_of_address": "the same value looked up again (other call order) gave a different result: "
+                                   "the lookup is not a function of the address",
             "country": "the nationality mark of the returned registration does not belong to the country "
                        "of the first address block (PATTERNS.registers) that contains the address",
         }.get(why, "malformed event")
         sig = {"clause": why, "e": ev["e"], "lead": _lead(ev.get("reg", []))}
+        if "order" in ev:
+            sig["order"] = ev["order"]
         run.report(sig, case)
 
 
@@ -114,6 +126,9 @@ def check(run, probe_values=None):
     p = core.run_rs("c14", ["run", work, run.tier, run.seed, n_a, n_w, n_b, ppath], timeout=1800)
     summ = json.loads(p.stdout.strip().splitlines()[-1])
     files = [os.path.join(work, f["file"]) for f in summ["a_files"] + summ["w_files"] + summ["b_files"]]
+    if {a["order"] for a in summ.get("again", [])} != {"descending", "permuted", "sample_ascending", "ai_descending"} \
+            or any(a["calls"] < len(summ["a_files"]) for a in summ["again"]):
+        raise core.ToolError("harness did not repeat the calls in the other orders")
     if summ["domain_calls"] != 1 << 24 or not summ["a_files"] or (summ["some"] and not summ["b_files"]):
         raise core.ToolError("harness summary incomplete")
     if sum(f["new"] for f in summ["b_files"]) != summ["some"]:
@@ -151,7 +166,7 @@ def check(run, probe_values=None):
     # V
     n_events = n_dev = 0
     dev_samples, dev_values, dev_by_lead = [], set(), {}
-    counts = {"t_some": 0, "t_none": 0, "t_panic": 0, "run": 0, "oor": 0, "s": 0}
+    counts = {"t_some": 0, "t_none": 0, "t_panic": 0, "run": 0, "oor": 0, "s": 0, "again_diff": 0}
     sweep_some = 0
     for res in vres:
         run.add_tlc(res["r"])
@@ -191,6 +206,8 @@ def check(run, probe_values=None):
                     counts["oor"] += 1
                 elif kind == 's",':
                     counts["s"] += 1
+                elif kind in ('aga', 'dif'):
+                    counts["again_diff"] += 1
     if thorough:
         # the address-ordered sweep files chain into 0 .. 2^24-1 and hold as many registrations as the sorted dump
         spans = []
@@ -234,6 +251,7 @@ def check(run, probe_values=None):
                 "addresses = TLC-generated intervals of +-64 around every rule edge, every "
                 + ("16th" if thorough else "64th") + " address, seeded random, each also through aircraft_information",
         "lookups": {k: summ[k] for k in ("some", "none", "panics", "oor", "sample_events", "interval_points", "none_runs")},
+        "repeated_calls": {a["order"]: {"calls": a["calls"], "differing": a["differing"]} for a in summ["again"]},
         "by_leading_text": summ["by_leading_text"],
         "block_table_rows": n_blocks,
         "intervals_from_tlc": len(points),
@@ -252,6 +270,8 @@ def check(run, probe_values=None):
         "first matching row wins, as in aircraft_information",
         "the harness orders the returned registrations by text; TLC checks the order is strict (so a wrong order "
         "alarms) and the engine checks the dump holds as many entries as the sweep",
+        "function_of_address: three call orders of tail() (ascending, descending, stride-permuted with out-of-range "
+        "values interleaved) and two of aircraft_information on the sample; state surviving longer is not exercised",
         "out-of-range values: 7 extremes, upper-byte aliases of every rule edge, 20 000 seeded random",
     ]
 
